@@ -82,6 +82,8 @@ func PackTable(table [][]int) ( /*T*/ []int /*D*/, []int /*Check*/, []int) {
 		for j := 0; j < len(row); j++ {
 			row[j]--
 		}
+		// the slices were shifted by one: look at the new first element
+		i--
 	}
 	return ret, row, check
 }
